@@ -122,7 +122,7 @@ def replay(module, fn, call, ctx=None, timeout=300, extra_env=None):
     payload = json.dumps({"module": module, "fn": fn, "call": call, "ctx": ctx or {}})
     env = dict(os.environ)
     env["VF_MODE"] = "real"
-    env["PYTHONPATH"] = f"/repo:{ROOT}" + (":" + env["PYTHONPATH"] if env.get("PYTHONPATH") else "")
+    env["PYTHONPATH"] = f"{os.environ.get('VF_REPO', '/repo')}:{ROOT}" + (":" + env["PYTHONPATH"] if env.get("PYTHONPATH") else "")
     if extra_env:
         env.update(extra_env)
     try:
